@@ -206,6 +206,32 @@ Theorem restart_covers : forall img m, covers (restart_image img) m = covers img
 Proof. exact restart_covers_proved. Qed.
 Print Assumptions restart_covers.
 
+(* Tan deletes a log file only when no replica of the db needs it; what a replica needs is
+   GENERATED from nodeIndex.fileInUse: the file with its latest STATE record (term, vote), its
+   latest snapshot record, its entries. Whatever a busy neighbour compacts, an idle replica's
+   acknowledged vote stays on disk. *)
+Theorem tan_needed_file_not_obsolete : forall nodes nf fn,
+  In nf nodes ->
+  (nf_state nf = fn \/ nf_snapshot nf = fn \/ In fn (nf_entries nf)) ->
+  file_obsolete nodes fn = false.
+Proof. exact tan_needed_file_not_obsolete_proved. Qed.
+Print Assumptions tan_needed_file_not_obsolete.
+
+(* node.doSave (step order GENERATED): log compaction is scheduled only after the snapshot
+   was recorded for the replica; an exported snapshot (user's directory, not recorded) records
+   nothing and schedules nothing, so acknowledged entries stay until a recorded snapshot
+   covers them *)
+Theorem do_save_compacts_only_recorded : forall exported l1 l2,
+  do_save_run exported do_save_steps = l1 ++ EfCompactionScheduled :: l2 -> In EfRecorded l1.
+Proof. exact do_save_compacts_only_recorded_proved. Qed.
+Print Assumptions do_save_compacts_only_recorded.
+
+Theorem do_save_exported_no_compaction :
+  ~ In EfCompactionScheduled (do_save_run true do_save_steps) /\
+  ~ In EfRecorded (do_save_run true do_save_steps).
+Proof. exact do_save_exported_no_compaction_proved. Qed.
+Print Assumptions do_save_exported_no_compaction.
+
 (* faithful to the code: a commit-only State change is NOT fsynced by Tan; the commit index may
    lag after power loss (no message of the property makes a claim about it) *)
 Theorem tan_commit_only_change_not_synced :
@@ -279,3 +305,10 @@ Proof. vm_compute. repeat split; reflexivity. Qed.
 (* a store that holds only a State record (a vote granted with an empty log) restarts with it *)
 Example restart_state_only : restart_image (mkImg 5 2 0 0 0 []) = mkImg 5 2 0 0 0 [].
 Proof. vm_compute. reflexivity. Qed.
+
+Example do_save_examples :
+  do_save_run false do_save_steps = [EfSaved; EfCommitted; EfRecorded; EfCompactionScheduled] /\
+  do_save_run true do_save_steps = [EfSaved; EfCommitted] /\
+  file_obsolete [mkNF 0 4 [1; 2]; mkNF 7 9 [8; 9]] 4 = false /\
+  file_obsolete [mkNF 0 4 [1; 2]; mkNF 7 9 [8; 9]] 5 = true.
+Proof. vm_compute. repeat split; reflexivity. Qed.
